@@ -21,7 +21,11 @@ UnaryOps == {"wrap_pie", "password_wrap", "public_key", "display", "debug", "exp
              \* a token type instantiated at a key kind: only the two purposes are token purposes
              "token_of_purpose",
              \* serde: serialising a key value without the explicit expose call
-             "serde_key"}
+             "serde_key",
+             \* converting a key into its text form without the explicit expose call (From / Into)
+             "into_keytext",
+             \* keys are Send and Sync (C17 relies on sharing them between threads)
+             "send_sync"}
 \* operations on tokens
 TokenOps == {"decrypt_encrypted", "verify_signed", "verify_encrypted", "decrypt_signed",
              "display_sealed", "display_unsealed", "serde_sealed", "serde_unsealed", "claims_of_sealed", "footer_unverified",
@@ -38,7 +42,7 @@ SoftOps == {"display", "id", "clone", "expose_to_string", "random", "from_bytes3
 SecretHolding == {"Local", "Secret", "PkeSecret"}
 UnaryKinds(op) == IF op = "display" THEN {"Local", "Public", "Secret", "PkeSecret"}      \* no secret-holding kind prints
                   ELSE IF op \in SoftOps THEN {"Local", "Public", "Secret"}
-                  ELSE IF op \in {"debug", "private_field", "serde_key"} THEN SecretHolding ELSE Kinds
+                  ELSE IF op \in {"debug", "private_field", "serde_key", "into_keytext"} THEN SecretHolding ELSE Kinds
 
 Points ==
   [op : KeyOps, k : Kinds, rel : Rel]
@@ -66,6 +70,8 @@ Permitted(p) ==
     [] p.op = "display" -> p.k = "Public"                                \* secrets cannot be printed
     [] p.op = "debug" -> FALSE
     [] p.op = "serde_key" -> FALSE                                       \* nor through serde (a struct that merely holds a key must not leak it)
+    [] p.op = "into_keytext" -> FALSE
+    [] p.op = "send_sync" -> TRUE
     [] p.op = "private_field" -> FALSE                                   \* key material only through the explicit expose call
     [] p.op = "expose_to_string" -> TRUE
     [] p.op = "from_bytes32" -> p.k = "Local"
